@@ -148,3 +148,14 @@ Fixpoint parses (ops : list op) : nat :=
 (* ---- observable for the correspondence check: configuration class + dictionary + history -> verdicts *)
 Definition show_history (x : (str * list (str * section)) * list op) : val :=
   VL (map show_accept (run_ops (new_client (fst (fst x)) (snd (fst x))) (snd x))).
+
+(* ---- compact form for the correspondence check: several (chunks of) sessions over one pool of messages;
+   a step names a message by its position in the pool.  Nothing but a decoder in front of show_history. *)
+Inductive step := SSet (o : opts) | SParse (i : nat).
+Definition ops_of (c : cfg) (pool : list (wire * response)) (steps : list step) : list op :=
+  flat_map (fun s => match s with
+                     | SSet o => [SetOpts o]
+                     | SParse i => match nth_error pool i with Some (w, r) => [Parse w c r] | None => [] end
+                     end) steps.
+Definition show_sessions (x : (cfg * list (wire * response)) * list ((str * list (str * section)) * list step)) : val :=
+  VL (map (fun s => show_history (fst s, ops_of (fst (fst x)) (snd (fst x)) (snd s))) (snd x)).
